@@ -127,6 +127,7 @@ Lemma save_and_log_ext : forall a x ri sr name value cat nid input x' v,
 Proof.
   intros a x ri sr name value cat nid input x' v Hlt. unfold save_and_log.
   destruct (trunc_spec value (max_result_chars (a_opts a))) as (t & -> & Hl & _).
+  destruct (trunc_ellipsis_spec input (max_template_chars (a_opts a))) as (kept & -> & Hkept & _).
   destruct (get_run (session_ x) ri).
   - destruct (save_result _ _) as [rs ch]. intros H; inversion H; subst. destruct ch.
     + eapply ext_trans; [|apply ext_log_event; [rewrite nruns_upd; auto|exact Hl]]. apply ext_upd_run; reflexivity.
